@@ -714,6 +714,19 @@ def _path_ops(span, elem, ph, used):
                     out.append({'op': 'relativity-via-symbol', 'cls': CLS_SYMBOL, 'expect': VAL, 'edit': 'span',
                                 'start': s, 'end': e, 'toks': new, 'needs': [sym], 'rel': r, 'depth': depth,
                                 'form': form})
+    if role in (ROLE_EXIST, ROLE_READ) and ph == 'setup' and span['what'] != 'act-file':
+        # the result directory is made by the act phase: the help pages of the [setup] instructions do not list
+        # -rel-result for any argument (those of the phases after [act] do)
+        out.append({'op': 'relativity-option', 'cls': CLS_SYNTAX, 'expect': EITHER, 'edit': 'span', 'start': s,
+                    'end': e, 'toks': [['-rel-result', 'rel'], [fname, 'path']], 'rel': 'result-before-act'})
+        for depth in (1, 2, 3):
+            sym = 'R%d_result' % depth
+            for form, new in (('rel-sym', [['-rel', 'rel'], [sym, 'ref:path'], ['sub-x', 'path']]),
+                              ('sym-slash', [['@[%s]@/sub-x' % sym, 'path']]),
+                              ('sym', [['@[%s]@' % sym, 'path']])):
+                out.append({'op': 'relativity-via-symbol', 'cls': CLS_SYMBOL, 'expect': VAL, 'edit': 'span',
+                            'start': s, 'end': e, 'toks': new, 'needs': [sym], 'rel': 'result-before-act',
+                            'depth': depth, 'form': form})
     if role in (ROLE_DEST, ROLE_EXIST, ROLE_READ, ROLE_DEF) and span['what'] != 'act-file':
         # a FILE-NAME is built from strings: a path symbol may only start it (followed by `/`), a list never fits,
         # nor does a string whose value is built from a list / path.  The whole PATH is rewritten so that every
